@@ -76,6 +76,11 @@ CHECKS = {
          "Every returned block is judged for range, size, disjointness from every live block on the public address and stability until release; after every operation the log alone (plus configured block size) must attribute every probed (public address, port, instant) to exactly the subscriber the manager's return values say; concurrent families F1-F3 (allocate-only, mixed, same-IP races) run at GOMAXPROCS 2/4/16.",
          "Trusted: the block/attribution models; virtual time for log timestamps. The DHCP server call sites only forward to the manager and are not driven.",
          "DESIGN.md §5 C10"),
+ "C03": ("c03_fastpath", "exploration",
+         "differential monitor: cache states produced by driving the real dhcp.Server (loader over kernel maps of the loaded working-tree object) are copied into the natively compiled XDP program (ASan/UBSan, guard pages, scripted clock); every transmitted reply is parsed by an independent parser and compared field by field with the userspace reply for the same client at that moment; the in-kernel BPF_PROG_TEST_RUN cross-checks the native run",
+         "A scripted matrix (renewal option-82 shape x RELEASE/DECLINE/expiry x 5 pool configurations) plus 300 (quick) / 6000 (thorough) seeded histories of direct and relayed clients; after every step every client is probed with DISCOVER/REQUEST frames (untagged, 802.1Q, QinQ, option 53 at several offsets, broadcast flag, ciaddr, IP options, short/long option areas, relayed with its circuit-id, huge kernel clock): a TX reply must be a well-formed Ethernet/IPv4/UDP/BOOTP frame (checksum, lengths, xid, chaddr, OFFER/ACK) carrying userspace's yiaddr, server id, mask, router, DNS and lease time; a PASS must be byte-identical; a client without a current binding must not be answered under any key it was cached under.",
+         "Trusted: the independent reply parser; the native shim (cross-checked against the kernel run on every transmitted reply). The fast path is not required to answer, only to answer correctly; the VLAN-pair cache is never written by the slow path and is exercised only as a probe key.",
+         "DESIGN.md §5 C03"),
 }
 
 REASON_TODO = "check not yet built in this revision of /verif (planned in DESIGN.md §5); nothing is claimed for it"
